@@ -11,6 +11,7 @@ argument: coercing, rejecting, failing at the k-th call, non-idempotent).
 import TraitsVerif.Lemmas.MapStep
 import TraitsVerif.Generated.Mutators
 import TraitsVerif.Generated.DictEvent
+import TraitsVerif.Lemmas.PyLMapDict
 namespace TraitsVerif.Props.C06
 open TraitsVerif TraitsVerif.Py TraitsVerif.Model.Map
 open TraitsVerif.Py.Dict (get? contains set erase update ofPairs Op Ret WF)
@@ -372,6 +373,72 @@ theorem C06_history_refines_unconditional (kv : Callback K K) (vv : Callback V V
     refine ⟨?_, ih _ (fun op' h' => h op' (List.mem_cons_of_mem _ h'))⟩
     have := h op (by simp)
     cases op <;> simp_all [SetdefaultHyp]
+
+/-! ### Tie to the source by translation: the model is the interpreted source -/
+
+/-- **C06_step_is_source.**  For every key/value validator, every dict and every
+operation with its arguments, the hand-written `TraitDict.step` is exactly what
+the interpreter of `Model/PyLMap.lean` computes on the method body translated
+from the working tree (`Generated/MapSetProg.lean`, `translate/pylmap.py`):
+same contents, same return value, same notifications, same exception — and on
+an exception the same (unchanged) contents and no notification. -/
+theorem C06_step_is_source (kv : Callback K K) (vv : Callback V V) (d : Dict K V) (op : Op K V) :
+    Model.PyLM.D.runTraitDictOp Generated.traitDictProg kv vv d op
+      = Model.PyLM.D.summaryOfStep d (TraitDict.step kv vv d op) :=
+  Lemmas.PyLMD.td_step_is_source kv vv d op
+
+/-- A mapping argument of `update` / `|=` (the `other.items()` branch) is
+interpreted like the iterable of its items, which is what `Op.update` carries. -/
+theorem C06_source_mapping_argument (kv : Callback K K) (vv : Callback V V) (d m : Dict K V) :
+    Model.PyLM.D.runTraitDictM Generated.traitDictProg kv vv "update" [.dict m] d
+        = Model.PyLM.D.runTraitDictOp Generated.traitDictProg kv vv d (.update m) ∧
+    Model.PyLM.D.runTraitDictM Generated.traitDictProg kv vv "__ior__" [.dict m] d
+        = Model.PyLM.D.runTraitDictOp Generated.traitDictProg kv vv d (.ior m) :=
+  ⟨Lemmas.PyLMD.td_update_mapping kv vv d m, Lemmas.PyLMD.td_ior_mapping kv vv d m⟩
+
+/-- **C06_source_atomic.**  Atomicity read off the source: whenever the
+interpreted source raises, the dict is unchanged and nobody has been notified. -/
+theorem C06_source_atomic (kv : Callback K K) (vv : Callback V V) (d : Dict K V) (op : Op K V) (e : Exc)
+    (items : Dict K V) (evs : List (Triple K V))
+    (h : Model.PyLM.D.runTraitDictOp Generated.traitDictProg kv vv d op = .raised e items evs) :
+    items = d ∧ evs = [] := by
+  rw [C06_step_is_source] at h
+  cases hs : TraitDict.step kv vv d op with
+  | ok o => simp [Model.PyLM.D.summaryOfStep, hs] at h
+  | error e' =>
+    simp only [Model.PyLM.D.summaryOfStep, hs, Model.PyLM.D.Summary.raised.injEq] at h
+    exact ⟨h.2.1.symm, h.2.2.symm⟩
+
+/-- **C06_source_events.**  The source notifies at most once per call, and
+exactly with the model's `(removed, added, changed)`; contents and return value
+are the model's. -/
+theorem C06_source_events (kv : Callback K K) (vv : Callback V V) (d : Dict K V) (op : Op K V)
+    (items : Dict K V) (r : Ret K V) (evs : List (Triple K V))
+    (h : Model.PyLM.D.runTraitDictOp Generated.traitDictProg kv vv d op = .done items r evs) :
+    ∃ o, TraitDict.step kv vv d op = .ok o ∧ items = o.items ∧ r = o.ret ∧ evs = o.event.toList := by
+  rw [C06_step_is_source] at h
+  cases hs : TraitDict.step kv vv d op with
+  | error e' => simp [Model.PyLM.D.summaryOfStep, hs] at h
+  | ok o =>
+    simp only [Model.PyLM.D.summaryOfStep, hs, Model.PyLM.D.Summary.done.injEq] at h
+    exact ⟨o, rfl, h.1.symm, h.2.1.symm, h.2.2.symm⟩
+
+/-- `TraitDictObject` overrides no mutator (so the `Dict` trait's object runs the
+`TraitDict` methods above), and `notify` takes `(removed, added, changed)`. -/
+theorem C06_source_object_overrides_none :
+    Generated.traitDictObjectProg = [] ∧
+    Generated.traitDictNotifyParams = ["removed", "added", "changed"] := by decide
+
+/-- Non-vacuity: the interpreted source on the F13 input and on an `update` with
+a duplicate key after coercion. -/
+example :
+    Model.PyLM.D.runTraitDictOp Generated.traitDictProg tostr tostr [(KAtom.str 1, KAtom.str 2)]
+        (.setdefault (.int 1) (.int 4)) =
+      .done [(.str 1, .str 4)] (.val (.str 4)) [⟨[], [], [(.str 1, .str 2)]⟩] ∧
+    Model.PyLM.D.runTraitDictOp Generated.traitDictProg tostr tostr [(KAtom.str 1, KAtom.str 2)]
+        (.update [(.int 5, .int 6), (.int 1, .int 7), (.str 5, .int 8)]) =
+      .done [(.str 1, .str 7), (.str 5, .str 8)] .none [⟨[], [(.str 5, .str 8)], [(.str 1, .str 2)]⟩] := by
+  rw [C06_step_is_source, C06_step_is_source]; exact ⟨rfl, rfl⟩
 
 /-! ### Tie to the source: the mutators that exist are the mutators modelled -/
 
